@@ -175,7 +175,7 @@ func callPath(p *core.Prog, from, to *ssa.Function) []string {
 }
 
 func c11(p *core.Prog, r *core.Report) {
-	r.Explain = "Decides structural necessary conditions of returning to a clean state: (R1) after every successful registration of a message exchange, every path either removes it (shutdown / removeExchange, possibly deferred) or hands it to a call object whose failure/completion methods reach shutdown; (R2) every removal re-evaluates the connection's close state: removeExchange and expireExchange call onRemoved, which newConnection binds to checkExchanges for both sets, and the inbound watcher expires the exchange on both of its arms; (R3) closed connections are dropped: the close-state callback is bound for both directions, removes closed connections from the channel and from both peers (dialled and announced host:port); (R4) every goroutine the library starts has an exit: each loop in a `go` target has an exit edge tied to a stop signal that some function raises (closed channel, cancelled context, closed socket), and no goroutine can reach a wait for its own exit signal; (R5) relay items are deleted after their tombstone period (Entomb schedules Delete). The dispatch goroutine of an inbound call leaves only through a handler or the failed-method-read arm; readMethod reports failures only through failed(); call objects shut the exchange down on every path unless an earlier failure did; only active connections are listed under a peer. (R6) the relay pending count is balanced (shared with C09); neither close notification of the two peers depends on the other peer being absent. A connection refused by Channel.addConnection is closed; the channel tracks only connections admitted in the client/listening state. Relay items are failed / finished under the id that keys this connection's table (shared with C08-R2)."
+	r.Explain = "Decides structural necessary conditions of returning to a clean state: (R1) after every successful registration of a message exchange, every path either removes it (shutdown / removeExchange, possibly deferred) or hands it to a call object whose failure/completion methods reach shutdown; (R2) every removal re-evaluates the connection's close state: removeExchange and expireExchange call onRemoved, which newConnection binds to checkExchanges for both sets, and the inbound watcher expires the exchange on both of its arms; (R3) closed connections are dropped: the close-state callback is bound for both directions, removes closed connections from the channel and from both peers (dialled and announced host:port); (R4) every goroutine the library starts has an exit: each loop in a `go` target has an exit edge tied to a stop signal that some function raises (closed channel, cancelled context, closed socket), and no goroutine can reach a wait for its own exit signal; (R5) relay items are deleted after their tombstone period (Entomb schedules Delete). The dispatch goroutine of an inbound call leaves only through a handler or the failed-method-read arm; readMethod reports failures only through failed(); call objects shut the exchange down on every path unless an earlier failure did; only active connections are listed under a peer. (R6) the relay pending count is balanced (shared with C09); neither close notification of the two peers depends on the other peer being absent. A connection refused by Channel.addConnection is closed; the channel tracks only connections admitted in the client/listening state. Relay items are failed / finished under the id that keys this connection's table (shared with C08-R2). A lookup that stops an item's timer happens only where the item is then finished (shared with C09-R4)."
 	r.NotDecided = "that concrete histories actually reach quiescence; leak-freedom under rare interleavings; timer goroutines of time.AfterFunc; user handler goroutines."
 	r.Rule("C11-R1", "E6 paths", 3, "registered exchanges always get a remover")
 	r.Rule("C11-R2", "E6 who-may-call", 6, "every removal re-evaluates the close state")
